@@ -16,7 +16,7 @@ LEVEL = 'exploration'
 TECHNIQUE = 'Hypothesis-generated DAG models with subsystems added in a drawn permutation; reference residual + execution-trace validity predicate'
 RULE = ("case = acyclic model spec (2-6 tanh-affine explicit components + IndepVarComps, src_indices, units) cut into "
         "contiguous nested groups, optionally with a feedback loop among direct children of one group (that group gets "
-        "NonlinearBlockGS), with all subsystems ADDED IN A DRAWN PERMUTATION and auto_order drawn per group. Judged: with "
+        "NonlinearBlockGS), with all subsystems ADDED IN A DRAWN PERMUTATION and auto_order drawn per group, and a drawn history: plain setup, a second setup() of the same Problem (before or after a run), or an explicit set_order(declared order) before setup. Judged: with "
         "auto_order on every group and run-once solvers, one run_model leaves zero residuals and every component executed after "
         "its predecessors; members of a cycle keep their insertion order; groups without auto_order keep insertion order. "
         "Non-trivial = the insertion order violates >=2 data dependencies. Distinct = distinct canonical JSON.")
@@ -103,8 +103,21 @@ def check(case):
         live.append(cname)
 
     try:
-        p, groups = build_problem(spec, trace=trace)
+        p, groups = build_problem(spec, trace=trace, setup=False)
+        for key in case.get('pre_set_order', []):
+            # an explicit set_order() with the declared (insertion) order before setup: legal and a no-op for the order
+            order, _ = children_graph(spec, key)
+            if key in groups and len(order) > 1:
+                groups[key].set_order(order)
+        p.setup()
+        if case.get('resetup'):
+            # a second setup() of the same Problem (with or without a run in between) must order again
+            p.final_setup()
+            if case['resetup'] == 'after_run':
+                p.run_model()
+            p.setup()
         p.final_setup()
+        del live[:]
         p.run_model()
         trace_log = list(live)    # freeze: later residual evaluations also call compute
     except om.AnalysisError:
@@ -164,7 +177,8 @@ def check(case):
                 if a in last and b in first and a != b and last[a] > first[b]:
                     res.fail('trace:component-ran-before-predecessor', f"{a} -> {b}; trace {trace_log}")
     res.nontrivial = nviol >= 2
-    res.classes = cls + ['ran'] + (['misordered>=2'] if nviol >= 2 else [])
+    res.classes = cls + ['ran'] + (['misordered>=2'] if nviol >= 2 else []) + \
+        (['resetup'] if case.get('resetup') else []) + (['pre_set_order'] if case.get('pre_set_order') else [])
     return res
 
 
@@ -233,7 +247,15 @@ def strategy(tier):
                     spec['groups'][k].update({'nl': 'nlbgs', 'ln': 'direct'})
                     spec['feedback'] = True
                     cyc_group = k
-        return {'spec': spec, 'cyc_group': cyc_group}
+        out = {'spec': spec, 'cyc_group': cyc_group}
+        hist = draw(st.sampled_from(['plain', 'plain', 'resetup', 'resetup_after_run', 'pre_set_order']))
+        if hist == 'resetup':
+            out['resetup'] = 'plain'
+        elif hist == 'resetup_after_run':
+            out['resetup'] = 'after_run'
+        elif hist == 'pre_set_order':
+            out['pre_set_order'] = [k for k in sorted(spec['groups']) if draw(st.booleans())]
+        return out
     return case()
 
 
